@@ -187,11 +187,30 @@ func harnessOverlay(property string) (map[string][]byte, map[string]string, erro
 			return err
 		}
 		virt := filepath.Join(repoDir, rel)
+		if strings.HasPrefix(rel, "_deps/") {
+			// a file added to a package of a dependency module (read-only module cache): the path
+			// below _deps is the import path of the package
+			virt, err = depVirtualPath(strings.TrimPrefix(filepath.Dir(rel), "_deps/"), base)
+			if err != nil {
+				return err
+			}
+		}
 		ov[virt] = data
 		files[virt] = p
 		return nil
 	})
 	return ov, files, err
+}
+
+func depVirtualPath(importPath, base string) (string, error) {
+	cmd := exec.Command("go", "list", "-f", "{{.Dir}}", importPath)
+	cmd.Dir = repoDir
+	cmd.Env = goEnv()
+	out, err := cmd.Output()
+	if err != nil {
+		return "", fmt.Errorf("go list %s: %v", importPath, err)
+	}
+	return filepath.Join(strings.TrimSpace(string(out)), base), nil
 }
 
 func goEnv() []string {
@@ -204,7 +223,7 @@ func goEnv() []string {
 		}
 		out = append(out, kv)
 	}
-	return append(out, "GOFLAGS=-mod=mod", "GOPROXY=off", "GOWORK=off")
+	return append(out, "GOFLAGS=-mod=mod", "GOPROXY=off", "GOWORK=off", "GODEBUG=goindex=0") // goindex=0: overlay files added to module-cache packages are otherwise ignored
 }
 
 // prepViolation is a property violation detected concretely by the prepare step or by the type
